@@ -6,6 +6,7 @@ import (
 	"go/token"
 	"go/types"
 	"math"
+	"regexp"
 	"strings"
 
 	"golang.org/x/tools/go/ssa"
@@ -31,6 +32,8 @@ type Frame struct {
 	top    bool
 	bind   []Value // free variable bindings (closures)
 	names  map[string][]ssa.Value
+	// nameAt: the block of the debug reference that recorded names[name][i]
+	nameAt map[string][]*ssa.BasicBlock
 	order  []*ssa.BasicBlock
 	tags   []string
 	alias  map[string]string // contract-recorded local name -> current name (locals.go)
@@ -290,7 +293,34 @@ func (f *Frame) seqLenRaw(x Term) Term {
 	return T(sInt, "(len.%s %s)", x.Sort, x.S)
 }
 
+// slIndex: the position of element idx of the heap slice sl in its backing array,
+// off + idx. Inside a quantified clause (idx mentions a bound variable) it is written
+// sl.ix(off, idx), an uninterpreted function with the defining axiom sl.ix(a, b) = a + b:
+// the solvers normalise sums, so `(+ off k)` never matches as a trigger, while
+// sl.ix(off, k) matches every ground sl.ix(off, _). Ground accesses keep the plain sum
+// and state the ground sl.ix term as a fact, which is what the triggers match against.
+func (f *Frame) slIndex(sl, idx Term) string {
+	plain := fmt.Sprintf("(+ (Sl.off %s) %s)", sl.S, idx.S)
+	if idx.Sort != sInt {
+		return plain
+	}
+	ix := fmt.Sprintf("(sl.ix (Sl.off %s) %s)", sl.S, idx.S)
+	if boundVarRE.MatchString(idx.S+" ") || boundVarRE.MatchString(sl.S+" ") {
+		return ix
+	}
+	if !strings.Contains(ix, "!x") && !strings.Contains(ix, "!a ") {
+		f.assumeOnce(T(sBool, "(= %s %s)", ix, plain))
+	}
+	return plain
+}
+
+var boundVarRE = regexp.MustCompile(`!b[\s)]`)
+
 func (f *Frame) lenFact(l Term) {
+	if boundVarRE.MatchString(l.S + " ") {
+		// the term mentions a quantifier's bound variable: no ground fact can be stated about it
+		return
+	}
 	if f.vc.mode == ModeBV {
 		f.assumeOnce(T(sBool, "(and (bvsle (_ bv0 64) %s) (bvsle %s (_ bv%s 64)))", l.S, l.S, maxLen))
 	} else {
@@ -451,7 +481,11 @@ func (f *Frame) load(a *Addr, st *State) Term {
 		return f.seqAt(cur, a.Idx)
 	case aHeapElem:
 		key := f.compKey("E:", sortTag(a.Sort), a.Sort)
-		return T(a.Sort, "(select (select %s (Sl.base %s)) (+ (Sl.off %s) %s))", st.get(key).S, a.Sl.S, a.Sl.S, a.Idx.S)
+		// el.<sort>(content, off, i) = content[off+i]: an uninterpreted accessor with a defining
+		// axiom, so that quantified clauses over slice elements get terms in which the index
+		// stands alone (select ... (+ off i) is a poor trigger)
+		// (tried and dropped: it made the Set.Remove invariants undischargeable)
+		return T(a.Sort, "(select (select %s (Sl.base %s)) %s)", st.get(key).S, a.Sl.S, f.slIndex(a.Sl, a.Idx))
 	}
 	return f.vc.freshConst("load", a.Sort)
 }
@@ -502,7 +536,7 @@ func (f *Frame) store(a *Addr, v Term, st *State, reach Term, p token.Pos) {
 		base := T(sInt, "(Sl.base %s)", a.Sl.S)
 		f.frameCheck(key, base, st, reach, p)
 		old := st.get(key)
-		st.set(key, f.vc.define(key, T(old.Sort, "(store %s %s (store (select %s %s) (+ (Sl.off %s) %s) %s))", old.S, base.S, old.S, base.S, a.Sl.S, a.Idx.S, v.S)))
+		st.set(key, f.vc.define(key, T(old.Sort, "(store %s %s (store (select %s %s) %s %s))", old.S, base.S, old.S, base.S, f.slIndex(a.Sl, a.Idx), v.S)))
 	case aUnknown:
 		f.vc.note("%s: store through an untracked pointer (heap havocked)", funcKey(f.fn))
 		*st = *st.havocAll("store through unknown pointer")
